@@ -17,7 +17,7 @@ from .. import engine, sched, refcsv
 
 PROP = 'C16'
 LEVEL = 'exploration'
-RULE = ('Histories: a pool of 83 scenarios (sharing their table objects) (every query kind of C01-C05, LIKE with many patterns, aggregates, UNNEST, DISTINCT [COUNT], joins, UPDATE, parse errors, runtime '
+RULE = ('Histories: a pool of 87 scenarios (sharing their table objects) (every query kind of C01-C05, LIKE with many patterns, aggregates, UNNEST, DISTINCT [COUNT], joins, UPDATE, parse errors, runtime '
         'errors at record k, IO errors, query_csv, pandas); every ordered pair (quick) and every ordered triple (thorough) run in one interpreter, plus Hypothesis '
         'rule-based state machines over sequences of <= 6 (quick) / <= 12 (thorough) scenarios; invariant after every step: the result (output, header, warnings, error) '
         'equals the result of the same scenario run alone in a FRESH interpreter (one sub-process per scenario). Consecutive rbql-js queries: every ordered pair and a sample of triples (thorough: all) of a 29-scenario JS pool in one node process, each step compared with the scenario run in a fresh node process. Interleavings: two queries of different kinds run in two '
@@ -38,8 +38,26 @@ def plan(tier):
     return {'stages': [('shard_histories', 3), ('shard_js_histories', 1), ('shard_interleavings', 12)], 'timeout_s': 5400}
 
 
-def S(name, query, A=T1, B=None, a_names=None, b_names=None, kind='table', init=''):
-    return {'name': name, 'query': query, 'A': A, 'B': B, 'a_names': a_names, 'b_names': b_names, 'kind': kind, 'init': init}
+def S(name, query, A=T1, B=None, a_names=None, b_names=None, kind='table', init='', enc='utf-8'):
+    return {'name': name, 'query': query, 'A': A, 'B': B, 'a_names': a_names, 'b_names': b_names, 'kind': kind, 'init': init, 'enc': enc}
+
+
+_SQLITE = {}
+
+
+def shared_sqlite_connection(scratch):
+    """One connection per process, handed to every sqlite scenario of every history (as a caller would keep one open)."""
+    if 'con' not in _SQLITE:
+        import sqlite3
+        path = os.path.join(scratch, 'c16_%d.sqlite' % os.getpid())
+        if os.path.exists(path):
+            os.remove(path)
+        con = sqlite3.connect(path)
+        con.execute('create table t (name text, amount text)')
+        con.executemany('insert into t values (?, ?)', [('caf\u00e9', '10'), ('x', 'abc'), ('\u00fc', '3')])
+        con.commit()
+        _SQLITE['con'] = con
+    return _SQLITE['con']
 
 
 POOL = [
@@ -63,6 +81,9 @@ POOL = [
     S('agg-numbers-int', 'select MEDIAN(a1), MIN(a1), MAX(a1), SUM(a1), AVG(a1)', A=[[3], [1], [2], [10]]), S('agg-numbers-float', 'select MEDIAN(a1), MIN(a1), MAX(a1), SUM(a1), AVG(a1)', A=[[1.5], [2.25], [0.5]]),
     S('agg-strings-int', 'select MEDIAN(a1), MIN(a1), MAX(a1), SUM(a1), AVG(a1)', A=[['10'], ['9'], ['100']]), S('agg-strings-float', 'select MEDIAN(a1), MIN(a1), MAX(a1), SUM(a1), AVG(a1)', A=[['1.5'], ['10'], ['9'], ['2']]),
     S('agg-strings-grouped', 'select a2, MEDIAN(a1), MAX(a1), SUM(a1) group by a2', A=[['10', 'x'], ['9', 'x'], ['100', 'x'], ['7', 'y']]),
+    # the sqlite front-end over one long-lived connection of the caller: output encodings, succeeding and failing
+    S('sqlite-utf8', 'select a.name, a.amount', kind='sqlite'), S('sqlite-latin1', 'select a.name, a.amount', kind='sqlite', enc='latin-1'),
+    S('sqlite-latin1-fails', 'select a.name, int(a.amount)', kind='sqlite', enc='latin-1'), S('sqlite-utf8-fails', 'select a.name, int(a.amount)', kind='sqlite'),
     # user init code (the `user_init_code` parameter): what one query defines is not there for the next one
     S('init-defines-fmt', 'select fmt(a1), a2', init='def fmt(x):\n    return "<" + x + ">"\n'), S('init-defines-fmt-differently', 'select fmt(a1), a2', init='def fmt(x):\n    return x.upper() + "!"\nUNIT = "kg"\n'),
     S('uses-fmt-without-init', 'select fmt(a1), a2'), S('uses-name-from-other-init', 'select a1 + UNIT'), S('init-redefines-builtin-name', 'select len(a1), a2', init='def len(x):\n    return -1\n'),
@@ -87,6 +108,18 @@ def run_scenario(sc, scratch):
         # the very same table objects are handed to every query of a history: a query that modified its sources would change later results
         r = engine.run_table(sc['query'], sc['A'], sc['B'], sc['a_names'], sc['b_names'], init=sc.get('init') or '')
         return jsonable({'out': r['out'], 'header': r['header'], 'warnings': r['warnings'], 'error': r['error']})
+    if kind == 'sqlite':
+        from rbql import rbql_sqlite
+        con = shared_sqlite_connection(scratch)
+        dst = os.path.join(scratch, 'c16_%d_sql_out.csv' % os.getpid())
+        w = []
+        try:
+            rbql_sqlite.query_sqlite_to_csv(sc['query'], con, 't', dst, ',', 'quoted', sc.get('enc') or 'utf-8', w)
+            with open(dst, 'rb') as f:
+                out = f.read().hex()
+            return {'out': out, 'header': None, 'warnings': w, 'error': None}
+        except Exception as e:
+            return {'out': None, 'header': None, 'warnings': w, 'error': engine.err_info(e)}
     if kind in ('csv', 'csv-bad'):
         src, dst = os.path.join(scratch, 'c16_%d_in.csv' % os.getpid()), os.path.join(scratch, 'c16_%d_out.csv' % os.getpid())
         data = refcsv.write_table(sc['A'], ',', 'quoted').encode()
